@@ -171,6 +171,9 @@ func (tc *typechecker) checkArrayType(array *ast.ArrayType, length int) *typeInf
 	if !len.IsConstant() {
 		panic(tc.errorf(array, "non-constant array bound %s", array.Len))
 	}
+	if !len.Untyped() && !len.IsInteger() {
+		panic(tc.errorf(array, "array length %s (constant %s of type %s) must be integer", array.Len, len.Constant, len.Type))
+	}
 	c, err := len.Constant.representedBy(intType)
 	if err != nil {
 		panic(tc.errorf(array, "%s", err))
@@ -1883,7 +1886,7 @@ func (tc *typechecker) maxIndex(node *ast.CompositeLiteral) int {
 		} else {
 			currentIndex = -1
 			ti := tc.checkExpr(kv.Key)
-			if ti.IsConstant() {
+			if ti.IsConstant() && (ti.Untyped() || ti.IsInteger()) {
 				c, _ := ti.Constant.representedBy(intType)
 				if c != nil {
 					currentIndex = int(c.int64())
